@@ -5,6 +5,7 @@ import json
 
 from .. import core, enc
 from ..runner import Result
+from .classdispatch_corr import classdispatch_correspondence
 
 ID = "C03"
 LEVEL = "proof"
@@ -18,7 +19,7 @@ LEVEL_NOTE = ("Trusted: Lean kernel, axioms propext/Classical.choice/Quot.sound;
               "LeafSound hypothesis for CPython constructors; inputs are the Val fragment (arbitrary objects enter as an attribute-less opaque).")
 TECHNIQUE = "Lean 4 soundness theorem over the model of all unmarshallers; correspondence on junk/corrupted inputs; independent conformance oracle"
 DESIGN_REF = "DESIGN.md §5 C03"
-MODULES = ["TypelibModel.Props.C03", "TypelibModel.Props.Dispatch"]
+MODULES = ["TypelibModel.Props.C03", "TypelibModel.Props.Dispatch", "TypelibModel.Props.ClassDispatch"]
 TABLES = True
 RULE = ("programs as in C01 (all unions allowed); inputs: junk stream (primitives, text in 5 carriers, JSON / Python-literal text, "
         "wrong-shape containers, unrelated instances, temporals), corrupted VALUES (an instance / tuple of the right class with a retyped "
@@ -26,7 +27,8 @@ RULE = ("programs as in C01 (all unions allowed); inputs: junk stream (primitive
         "retyped, element removed/added, nesting changed); non-trivial = composite annotation; distinct = (annotation, input)")
 ASSUMPTIONS = ["objects with adversarial dunder methods are out of scope; unrelated objects are attribute-less instances",
                "Literal/Enum membership and scalar positions are judged by Python's == / isinstance (DESIGN.md §3 Conformance)"]
-TRUSTED = ["harness/pyoracle/conforms.py (independent checker)", "harness encoders/generators", "hand-written model tied by correspondence"]
+TRUSTED = ["harness/pyoracle/conforms.py (independent checker)", "harness encoders/generators", "hand-written model tied by correspondence",
+           "harness/props/classdispatch_corr.py (class generator, readings computed with plain Python)", "lean/TypelibModel/Drv/ClassDispatch.lean (driver glue)"]
 
 
 def make_ops(depth):
@@ -221,6 +223,21 @@ class Sized:
         return False
     def __call__(self):
         return self.n
+class UserId(typing.NamedTuple):
+    value: int
+class AdminId(UserId):
+    # a subclass of a typed named tuple that adds methods only: still a named tuple, field by field
+    def is_root(self):
+        return self.value == 0
+class Pt(typing.NamedTuple):
+    x: int
+    y: int = 0
+class LabeledPt(Pt):
+    pass
+@dataclasses.dataclass
+class Grant:
+    admin: AdminId
+    at: typing.Optional[LabeledPt] = None
 class Scale:
     # typed through its constructor only, and callable
     def __init__(self, factor: decimal.Decimal, offset: int = 0, since: datetime.date = datetime.date(2020, 1, 1)):
@@ -241,7 +258,7 @@ class Job:
 """
 PRIV_TARGETS = ["Doc", "DocPart", "Account", "Ledger", "Wrapped", "Plain", "typing.List[Doc]", "typing.Dict[str, Account]",
                 "typing.Optional[Wrapped]", "typing.Tuple[Account, Doc]", "Options", "Sized", "Job", "typing.List[Options]", "typing.Dict[str, Sized]",
-                "Scale", "ScaleHolder", "typing.List[Scale]"]
+                "Scale", "ScaleHolder", "typing.List[Scale]", "AdminId", "LabeledPt", "Grant", "typing.List[AdminId]"]
 PRIV_INPUTS = ["{'_id': '7c5b9e1e-3f65-4b0a-9a57-0f6c0b1d2a11', 'title': 'a'}", "{'_id': ['not', 'a'], 'title': 'a'}",
                "'{\"_id\": \"7c5b9e1e-3f65-4b0a-9a57-0f6c0b1d2a11\", \"title\": \"a\"}'", "{'_rev': '3', '_tags': ['1', '2']}", "{'_rev': None}",
                "{'owner': 'ann', '_balance': '12.50'}", "{'owner': 'ann', '_balance': {'oops': None}}", "{'owner': 'ann'}",
@@ -254,7 +271,9 @@ PRIV_INPUTS = ["{'_id': '7c5b9e1e-3f65-4b0a-9a57-0f6c0b1d2a11', 'title': 'a'}", 
                "{'retries': '3', 'verbose': 1}", "'{\"retries\": \"3\", \"verbose\": 0}'", "[('retries', '4')]", "{'retries': [1, 2, 3]}", "{'n': '2', 'when': '2021-02-03'}",
                "{'name': 'nightly', 'options': {'retries': '9'}, 'sized': {'n': '1'}}", "[{'retries': '1'}, {'verbose': 'x'}]", "{'a': {'n': '5', 'when': 'junk'}}",
                "{'k': {'n': '5'}}", "{'factor': '2.50', 'offset': '3', 'since': '2024-02-29'}", "[{'factor': '1', 'offset': 'x'}]",
-               "{'label': 7, 'items': {'k': {'factor': '2.50', 'offset': '3', 'since': '2024-02-29'}}}", "[{'factor': '1.5'}]"]
+               "{'label': 7, 'items': {'k': {'factor': '2.50', 'offset': '3', 'since': '2024-02-29'}}}", "[{'factor': '1.5'}]",
+               "{'value': '7'}", "'{\"value\": \"7\"}'", "['7']", "{'value': [1, 2]}", "{'x': '1', 'y': '2'}", "['1', '2']",
+               "{'admin': {'value': '7'}, 'at': {'x': '1'}}", "[{'value': '1'}, {'value': '2'}]", "{'admin': ['3']}"]
 
 
 def _priv_child(ann):
@@ -292,6 +311,9 @@ def _priv_child(ann):
             return type(x) is a and all(conf(h, getattr(x, n)) for n, h in hints.items())
         if a is mod.Plain:
             return type(x) is a and type(x._n) is int and type(x.label) is str
+        if isinstance(a, type) and issubclass(a, tuple) and hasattr(a, "_fields"):
+            hints = typing.get_type_hints(a)
+            return type(x) is a and all(conf(hints[n], getattr(x, n)) for n in a._fields)
         if a is mod.Scale:
             return type(x) is a and all(conf(h, getattr(x, n)) for n, h in typing.get_type_hints(a.__init__).items() if n != "return")
         return type(x) is a
@@ -519,6 +541,7 @@ def explore(ctx):
     private_member_probe(res)
     recursive_alias_probe(res)
     iterable_dataclass_probe(res)
+    classdispatch_correspondence(res)   # which routine a class gets, how its instances are read: real code <-> Model/ClassDispatch.lean
     return res
 
 
